@@ -20,7 +20,8 @@ set_option autoImplicit false
 namespace GoCo.EtaD
 
 inductive Callee
-  | declared (generic instantiated : Bool)     -- f, f[T]
+  | declared (generic instantiated : Bool)     -- f, f[T]; instantiated = ALL type arguments are written (f[A] of
+                                               -- f[A, B any] leaves B to inference from a call: no value in general)
   | pkgFunc (generic instantiated : Bool)      -- pkg.F, pkg.F[T]
   | localVar                                    -- a variable of function type
   | field                                       -- x.f, f of function type
